@@ -471,6 +471,13 @@ class World:
             r.close()
         except _Timeout:
             resp = Resp(0, [], b'', ('UNBOUNDED', f'no answer within {timeout}s'), _real_time() - t0, True)
+            # the interrupt may have hit SQLAlchemy mid-statement, which makes the pool replace the single
+            # in-memory connection by a fresh (empty) one: put the base store back
+            signal.setitimer(signal.ITIMER_REAL, 0)
+            try:
+                self.restore(self.base_snapshot)
+            except Exception:
+                World._instance = None
         except Exception as e:  # exception escaped the WSGI app (PROPAGATE on or werkzeug-level)
             resp = Resp(599, [], b'', (type(e).__name__, traceback.format_exc()), _real_time() - t0)
         finally:
